@@ -86,9 +86,12 @@ func rulePanicInventory(c *chk.Ctx) {
 				return
 			}
 			if mi, isMI := p.X.(*ssa.MakeInterface); isMI {
-				if str, isK := constString(mi.X); isK && strings.Contains(str, "blocking select matched no case") {
-					return // synthesised by go/ssa for a select without default; not in the source
+				if str, isK := constString(mi.X); isK && (strings.Contains(str, "blocking select matched no case") || strings.Contains(str, "range function") || strings.Contains(str, "iterator call")) {
+					return // synthesised by go/ssa (select without default, range-over-func protocol checks); not in the source
 				}
+			}
+			if f.Synthetic != "" {
+				return
 			}
 			n++
 			if why := roleOf(f); why != "" {
